@@ -359,9 +359,15 @@ func init() {
 	treeUnits := func(entry string, trees []int, k, l int, samples int) []*interp.Unit {
 		var us []*interp.Unit
 		for _, t := range trees {
-			u := unit(cli, entry, fmt.Sprintf("%s[tree %d, K<=%d L<=%d]", entry, t, k, l), map[string]interface{}{"tree": t, "K": k, "L": l})
+			u := unit(cli, entry, fmt.Sprintf("%s[tree %d, K<=%d L<=%d]", entry, t, k, l), map[string]interface{}{"tree": t, "K": k, "L": l, "env": 0})
 			u.Samples = samples
 			us = append(us, u)
+			if t == 1 || t == 2 || t == 4 {
+				// the same with every level's flag backed by an environment variable (set or unset)
+				ue := unit(cli, entry, fmt.Sprintf("%s[tree %d, K<=%d L<=%d, env-backed flags]", entry, t, k, l), map[string]interface{}{"tree": t, "K": k, "L": l, "env": 1})
+				ue.Samples = samples
+				us = append(us, ue)
+			}
 		}
 		return us
 	}
@@ -373,9 +379,11 @@ func init() {
 			for opt := 1; opt >= 0; opt-- {
 				envLen, cliLen, maxEnv := 2, 2, 1
 				if !c.quick() {
-					envLen, cliLen, maxEnv = 3, 2, 2
+					envLen, cliLen, maxEnv = 3, 3, 2
 					if t >= 4 {
-						maxEnv = 1
+						envLen = 3
+						maxEnv = 2
+						cliLen = 2
 					}
 				}
 				role := map[int]string{1: "opt", 0: "arg"}[opt]
@@ -396,7 +404,7 @@ func init() {
 	}
 	precBounds := func(c *checkCtx) map[string]interface{} {
 		return map[string]interface{}{"instances": "7 built-in types x {option, argument}", "default": "symbolic (strings <=2 bytes, ints 64-bit, bools; floats concrete); lists of 0-2 elements",
-			"environment": map[bool]string{true: "0-1 listed variable, value <=2 ASCII bytes", false: "0-2 listed variables (0-1 for list types), value <=3 ASCII bytes"}[c.quick()], "command line": "the value 0, 1 or 2 times, payload 1-2 arbitrary bytes"}
+			"environment": map[bool]string{true: "0-1 listed variable, value <=2 ASCII bytes", false: "0-2 listed variables, value <=3 ASCII bytes"}[c.quick()], "command line": "the value 0, 1 or 2 times, payload of 0-" + map[bool]string{true: "2", false: "3 (2 for list types)"}[c.quick()] + " arbitrary bytes"}
 	}
 	precAssume := append([]string{"strconv.ParseBool/ParseInt/ParseFloat are uninterpreted functions shared by implementation and oracle; models and counterexamples are made consistent with the real strconv by lazily added ground facts and a corpus of edge-case tokens", "environment values are ASCII without NUL"}, commonAssumptions...)
 	reg(&propDef{
@@ -405,11 +413,11 @@ func init() {
 			if c.quick() {
 				return treeUnits("H_route", allTrees, 3, 2, 4)
 			}
-			return append(treeUnits("H_route", allTrees, 4, 2, 4), treeUnits("H_route", allTrees, 3, 3, 4)...)
+			return append(treeUnits("H_route", allTrees, 6, 2, 4), treeUnits("H_route", allTrees, 4, 3, 4)...)
 		},
 		Bounds: func(c *checkCtx) map[string]interface{} {
 			return map[string]interface{}{"trees": "6 command trees (depth<=3, fan-out<=2, 1-3 aliases incl. prefixes of each other, levels with/without parameters, action-less commands, version flag)",
-				"argv": map[bool]string{true: "raw K<=3 tokens of L<=2 bytes", false: "raw K<=4 L<=2 and K<=3 L<=3"}[c.quick()]}
+				"argv": map[bool]string{true: "raw K<=3 tokens of L<=2 bytes", false: "raw K<=6 L<=2 and K<=4 L<=3"}[c.quick()]}
 		},
 		Assumptions: append([]string{"no help token (C14), no version token; oracle: reference router whose per-level verdicts and bindings come from the real single-level application of that level"}, commonAssumptions...),
 		Outside:     []string{"other trees", "longer command lines"},
@@ -421,7 +429,7 @@ func init() {
 			if c.quick() {
 				return append(treeUnits("H_policy", allTrees, 3, 2, 4), conv...)
 			}
-			return append(append(treeUnits("H_policy", allTrees, 4, 2, 4), treeUnits("H_policy", allTrees, 3, 3, 4)...), conv...)
+			return append(append(treeUnits("H_policy", allTrees, 5, 2, 4), treeUnits("H_policy", allTrees, 4, 3, 4)...), conv...)
 		},
 		Bounds:      func(c *checkCtx) map[string]interface{} { return props["C04"].Bounds(c) },
 		Assumptions: append([]string{"the three policies are three runs of the real code on the same symbolic argv; which command rejects comes from the reference router; addressed commands without Action are excluded; conversion errors through IntOpt -n on tree 0 (strconv uninterpreted, ground-truthed)"}, commonAssumptions...),
@@ -433,10 +441,10 @@ func init() {
 			if c.quick() {
 				return treeUnits("H_help", helpTrees, 3, 1, 4)
 			}
-			return append(treeUnits("H_help", append(allTrees, 6), 4, 1, 4), treeUnits("H_help", []int{1, 5, 6}, 3, 2, 4)...)
+			return append(treeUnits("H_help", append(allTrees, 6), 5, 1, 4), treeUnits("H_help", []int{1, 5, 6}, 3, 2, 4)...)
 		},
 		Bounds: func(c *checkCtx) map[string]interface{} {
-			return map[string]interface{}{"argv": map[bool]string{true: "K<=3", false: "K<=4 (and K<=3 with 2-byte raw tokens)"}[c.quick()] + " tokens from {-h, --help, --, -v, --version, -f, every alias of the tree, raw bytes}", "policies": "all three (case split)"}
+			return map[string]interface{}{"argv": map[bool]string{true: "K<=3", false: "K<=5 (and K<=3 with 2-byte raw tokens)"}[c.quick()] + " tokens from {-h, --help, --, -v, --version, -f, every alias of the tree, raw bytes}", "policies": "all three (case split)"}
 		},
 		Assumptions: append([]string{"oracle: the statement transcribed (first help token that no `--` precedes addresses the command reached by the sub-command names before it) cross-checked against the reference router; the unclaimed case (ancestor's own arguments contain `--`) is assumed away"}, commonAssumptions...),
 		Outside:     []string{"other trees", "longer command lines", "byte-exact rendering of the help text"},
@@ -446,7 +454,7 @@ func init() {
 		Units: func(c *checkCtx) []*interp.Unit {
 			ds := []int{0, 1, 2}
 			if !c.quick() {
-				ds = []int{0, 1, 2, 3}
+				ds = []int{0, 1, 2, 3, 4}
 			}
 			var us []*interp.Unit
 			for _, d := range ds {
@@ -456,7 +464,7 @@ func init() {
 			return us
 		},
 		Bounds: func(c *checkCtx) map[string]interface{} {
-			return map[string]interface{}{"depth": map[bool]string{true: "d<=2 (7 hooks)", false: "d<=3 (9 hooks)"}[c.quick()], "hooks": "each of the 2d+3 hooks is absent / returns / panics(v) / calls Exit(n): all 4^(2d+3) combinations (case split); v and n are symbolic (64-bit), decided by the solver"}
+			return map[string]interface{}{"depth": map[bool]string{true: "d<=2 (7 hooks)", false: "d<=4 (11 hooks, 4.2M kind vectors)"}[c.quick()], "hooks": "each of the 2d+3 hooks is absent / returns / panics(v) / calls Exit(n): all 4^(2d+3) combinations (case split); v and n are symbolic (64-bit), decided by the solver"}
 		},
 		Assumptions: append([]string{"the process-exit function is replaced by a recording stub that does not return (os.Exit never returns)", "oracle: 20-line chain reference (DESIGN D.3)"}, commonAssumptions...),
 		Outside:     []string{"panic(nil)", "hooks calling os.Exit directly", "deeper paths"},
